@@ -549,6 +549,26 @@ class Interp(MiniEval):
                         return lambda: [(k, self.apply(gi, [k], {})) for k in keys()]
                     if attr == '__contains__':
                         return lambda k: k in keys()
+            if cq and not object.__getattribute__(base, '_constructed') and not attr.startswith('__'):
+                # a stand-in for a package object that lacks a field the class initialises to a literal in its constructor (a
+                # memo table added by a change): take the initial value from the constructor
+                init_q = self.src.find_method(cq, '__init__')
+                if init_q:
+                    m_, fn_ = self.src.func(init_q)
+                    selfname = fn_.args.args[0].arg if fn_.args.args else 'self'
+                    for st in ast.walk(fn_):
+                        tgt = None
+                        if isinstance(st, ast.Assign) and len(st.targets) == 1:
+                            tgt, val = st.targets[0], st.value
+                        elif isinstance(st, ast.AnnAssign) and st.value is not None:
+                            tgt, val = st.target, st.value
+                        if isinstance(tgt, ast.Attribute) and isinstance(tgt.value, ast.Name) and tgt.value.id == selfname and tgt.attr == attr:
+                            try:
+                                lit = ast.literal_eval(val)
+                            except (ValueError, SyntaxError):
+                                break
+                            base.set(attr, lit)
+                            return lit
             if cq and object.__getattribute__(base, '_constructed') and not attr.startswith('__'):
                 # an object the interpreted program built itself: what its class does not define and its constructor did not
                 # set does not exist
@@ -1155,7 +1175,17 @@ class Interp(MiniEval):
                     same = a.get('__eq_key__') == b.get('__eq_key__')
                 return same if isinstance(op, ast.Eq) else not same
             if isinstance(op, (ast.In, ast.NotIn)) and isinstance(b, (list, tuple, set, frozenset, dict)):
-                r = any(a is x for x in b)
+                # as Python: identity or ==, where == of abstract objects is identity unless they model structural equality
+                # (bs4 tags compare - and hash - by markup); dicts and sets go through hash and ==
+                if isinstance(a, Sym):
+                    r = any(a is x for x in b)
+                elif isinstance(b, (set, frozenset, dict)):
+                    try:
+                        r = a in b
+                    except TypeError:
+                        raise Raised('TypeError')
+                else:
+                    r = any(a is x or (isinstance(x, Obj) and isinstance(a, Obj) and a == x) for x in b)
                 return r if isinstance(op, ast.In) else not r
             if isinstance(op, (ast.In, ast.NotIn)) and isinstance(b, Obj):
                 f = self.dunder(b, '__contains__')
